@@ -15,7 +15,11 @@ type vUniteEnv struct {
 	times    []int64
 	awaiting bool
 	t0       int64
+	acc      []int64 // acceptance time of every element that is inside the discipline, oldest first
+	mustFlush bool   // a tick was taken at least Timeout after acc[0]: the next thing the discipline does is a delivery
 }
+
+const vC10Msg = "C10: a tick taken at least Timeout after the oldest buffered element was accepted flushes the buffer (an arrival never postpones the deadline of what is already buffered)"
 
 func vUniteSetup(timed bool) *vUniteEnv {
 	JS := vParam("JS", 2)
@@ -74,8 +78,32 @@ func vUniteSetup(timed bool) *vUniteEnv {
 	} else {
 		vSink(d.output)
 	}
+	if timed {
+		vOnRecv(in, func(v any, ok bool) {
+			vAssert(!e.mustFlush, vC10Msg)
+			if ok {
+				vAdvance()
+				now := vNow()
+				for range v.([]int) {
+					e.acc = append(e.acc, now)
+				}
+			}
+		})
+		vOnTick(func() {
+			vAssert(!e.mustFlush, vC10Msg)
+			if len(e.acc) > 0 && vNow()-e.acc[0] >= int64(opts.Timeout) {
+				e.mustFlush = true
+			}
+		})
+	}
 	vOnSend(d.output, func(v any) {
 		s := v.([]int)
+		e.mustFlush = false
+		if len(s) <= len(e.acc) {
+			e.acc = e.acc[len(s):]
+		} else {
+			e.acc = nil
+		}
 		vAssert(len(s) > 0, "C03/C11: no output slice is empty (empty input slices produce nothing)")
 		vAssert(!e.awaiting, "C08: no further output is produced before the previous no-copy slice was released")
 		if opts.NoCopy {
